@@ -43,7 +43,20 @@ META = {
 
 PUBS = ['p1', 'p2', 'p3']
 LIFE = {'restart_p': 0.02}     # server restarts cost 2-4 s each
-MUTS = ['after_write', 'newest', 'batch', 'none_paused', 'neg_waives', 'nack_leader_only']
+MUTS = ['after_write', 'newest', 'batch', 'none_paused', 'neg_waives', 'nack_leader_only',
+        'drop_idle_ack', 'noinbox_exp', 'snap_drops']
+# actions a design-check configuration switches off by its budgets (not counted as "never taken")
+OFF = {'MC_OccPublish': {'MCPause', 'MCRestart', 'MCSnapshot', 'MCInstall', 'MCCount'},
+       'MC_OccPublish_small': {'MCRestart', 'MCSnapshot', 'MCInstall', 'MCCount'},
+       'MC_OccPublish_thorough': {'MCPause', 'MCRestart', 'MCSnapshot', 'MCInstall', 'MCCount'},
+       'MC_OccPublish_thorough2': {'MCPause', 'MCRestart', 'MCSnapshot', 'MCInstall', 'MCCount'},
+       'MC_OccPublish_who': {'MCPause', 'MCRestart', 'MCSnapshot', 'MCInstall', 'MCCount', 'MCRead', 'MCBarrier'},
+       'MC_OccPublish_who_thorough': {'MCPause', 'MCRestart', 'MCSnapshot', 'MCInstall', 'MCCount', 'MCRead'},
+       'MC_OccPublish_hold': {'MCPause', 'MCRestart', 'MCSnapshot', 'MCInstall', 'MCRead'},
+       'MC_OccPublish_hold_thorough': {'MCPause', 'MCRestart', 'MCSnapshot', 'MCInstall', 'MCRead'},
+       'MC_OccPublish_life': {'MCPause', 'MCCount', 'MCRead'},
+       'MC_OccPublish_life_thorough': {'MCCount', 'MCRead'}}
+RAW = ('nats', 'natsq', 'plain')
 
 
 def tlc_check(module, cfg, **kw):
@@ -137,18 +150,24 @@ def sim_to_round(beh, rng, rid):
     for st in beh[1:]:
         a = st['last']
         if a['a'] == 'Send':
-            cur.setdefault(a['p'], []).append({'a': 'Send', 'kind': a['kind'], 'pol': a['pol']})
+            st_ = {'a': 'Send', 'kind': a['kind'], 'pol': a['pol']}
+            if a.get('via', 'api') != 'api':
+                st_['via'] = a['via']
+            if a.get('hold') is True:
+                st_['hold'] = True
+            cur.setdefault(a['p'], []).append(st_)
         elif a['a'] == 'Read':
             cur.setdefault(a['p'], []).append({'a': 'Read'})
         elif a['a'] == 'Barrier':
             if cur:
                 waves.append(cur)
             cur = {p: [{'a': 'Read'}] for p in PUBS}
-        elif a['a'] == 'Restart':
-            # server restart between two waves (driver step '#')
-            if cur:
+        elif a['a'] in ('Restart', 'Snapshot', 'Install'):
+            # server restart / Raft snapshot / snapshot install between two waves (driver steps '#')
+            if cur and set(cur) != {'#'}:
                 waves.append(cur)
-            cur = {'#': [{'a': 'Restart'}]}
+                cur = {}
+            cur.setdefault('#', []).append({'a': a['a']})
         elif a['a'] == 'Pause':
             # PauseStream needs quiescence: it starts a new wave (driver step '#')
             if cur:
@@ -157,7 +176,19 @@ def sim_to_round(beh, rng, rid):
     if any(s['a'] == 'Send' for steps in cur.values() for s in steps):
         waves.append(cur)
     first = core.tlaval.state_var(beh[0]['body'], 'cfg')
-    return decorate_round(rid, first['occ'], waves, rng, path=first['path'])
+    snap0 = core.tlaval.state_var(beh[0]['body'], 'snap')
+    r = decorate_round(rid, first['occ'], waves, rng, path=first['path'])
+    set_snap0(r, snap0)
+    return r
+
+
+def set_snap0(r, snap0):
+    """where the newest Raft snapshot was taken while the stream of the round was set up: 'pred' = while the deleted
+    predecessor (opposite setting) existed, 'gap' = between its deletion and the creation, 'cur' = after the creation"""
+    if snap0 in ('pred', 'gap'):
+        r['cfg']['recreate'] = True
+    if snap0 != 'none':
+        r['cfg']['snap0'] = snap0
 
 
 def random_round(rng, rid):
@@ -179,7 +210,15 @@ def random_round(rng, rid):
                     kind = rng.choice(['stale', 'future', 'far', 'future', 'neg', 'negbig'])
                 else:
                     kind = rng.choice(['waive', 'stale', 'equal', 'future', 'far', 'neg', 'negbig'])
-                steps.append({'a': 'Send', 'kind': kind, 'pol': 'leader'})
+                st_ = {'a': 'Send', 'kind': kind, 'pol': 'leader'}
+                # who publishes: mostly the gRPC API; PublishToSubject, the publisher's own NATS connection with /
+                # without ack inbox, a plain NATS message
+                x = rng.random()
+                if x < 0.30:
+                    st_['via'] = rng.choice(['nats', 'nats', 'natsq', 'natsq', 'plain', 'subj'])
+                elif x < 0.42:
+                    st_['hold'] = True      # the session counts this publish after its answer
+                steps.append(st_)
             wave[p] = steps
         if wave:
             waves.append(wave)
@@ -190,39 +229,66 @@ def random_round(rng, rid):
     for w in waves:
         if rng.random() < 0.2:
             w['#'] = [{'a': 'Pause'}]
+    # life cycle: a server restart / a Raft snapshot / a snapshot install before a wave
+    if rng.random() < LIFE['restart_p']:
+        w = rng.choice(waves)
+        w['#'] = w.get('#', []) + ([{'a': 'Snapshot'}] if rng.random() < 0.5 else []) + [{'a': 'Restart'}]
+    if rng.random() < 0.03:
+        w = rng.choice(waves)
+        w['#'] = w.get('#', []) + [{'a': rng.choice(['Snapshot', 'Install'])}]
     r = decorate_round(rid, rng.random() < 0.92, waves, rng)
-    # life cycle of the stream: a deleted predecessor with the opposite setting; a server restart before a wave
+    # a deleted predecessor with the opposite setting; where the newest snapshot was taken during the set-up
     if rng.random() < 0.06:
         r['cfg']['recreate'] = True
-    if rng.random() < LIFE['restart_p']:
-        w = rng.choice(r['steps'])
-        w['#'] = w.get('#', []) + [{'a': 'Restart'}]
+    if rng.random() < 0.08:
+        set_snap0(r, rng.choice(['pred', 'gap', 'cur', 'cur']))
     return r
 
 
 def decorate_round(rid, occ, waves, rng, path=None):
     pubs = sorted({p for w in waves for p in w if p != '#'}) or PUBS[:2]
+    path = path or rng.choice(['async', 'async', 'async', 'sync'])
     has_none = False
+    maybe_paused = False
     for w in waves:
+        if any(x['a'] == 'Pause' for x in w.get('#', [])):
+            maybe_paused = True
+        resumes = False
         for who, steps in w.items():
             if who == '#':
                 continue
             for s in steps:
                 if s['a'] != 'Send':
                     continue
+                # only the gRPC Publish / PublishAsync calls resume a paused partition: while it may be paused
+                # everybody uses them (a message written to the subject of a paused partition is lost: no answer,
+                # which cannot be told from slowness)
+                if maybe_paused:
+                    s.pop('via', None)
+                via = s.get('via', 'api')
+                if via != 'api' or path != 'async' or s['pol'] == 'none':
+                    s.pop('hold', None)
+                if via in ('plain', 'subj'):
+                    s['kind'] = 'waive'       # no expected-offset field
+                if via != 'api' and s['pol'] == 'none':
+                    s['pol'] = 'leader'
+                if via == 'api' and s['pol'] != 'none':
+                    resumes = True
                 if s['pol'] == 'none':
                     if occ:
                         has_none = True
                     else:
                         s['pol'] = 'leader'   # no answer by design without concurrency control: nothing to observe
-                if s['pol'] == 'leader' and rng.random() < 0.3:
+                if s['pol'] == 'leader' and s.get('via', 'api') not in ('natsq', 'plain') and rng.random() < 0.3:
                     s['pol'] = 'all'
+        if resumes:
+            maybe_paused = False
     if has_none:
         # a publish with ack policy NONE is followed by an acknowledged one of every publisher before the log is read
         waves.append({p: [{'a': 'Send', 'kind': 'waive', 'pol': 'leader'}] for p in pubs})
     batch, ms = rng.choice([(1, 0), (2, 0), (8, 0), (1024, 0), (2, 2), (8, 3), (1024, 1)])
     cfg = {'occ': occ, 'batch': batch, 'batchMs': ms,
-           'path': path or rng.choice(['async', 'async', 'async', 'sync']), 'pubs': pubs}
+           'path': path, 'pubs': pubs}
     return {'id': rid, 'cfg': cfg, 'steps': waves}
 
 
@@ -254,6 +320,62 @@ def life_case(rid, path, recreate, restart_at):
     if recreate:
         cfg['recreate'] = True
     return {'id': rid, 'cfg': cfg, 'steps': waves}
+
+
+def comeback_case(rid, path, snap0, how, occ=True):
+    """how the server comes back, for a stream with concurrency control: where the newest Raft snapshot was taken
+    (snap0: none / pred / gap / cur, or 'late' = between two waves) x how the metadata is rebuilt (restart = from the
+    snapshot + log tail or by replaying the whole Raft log; install = Server.Restore on the running server), then
+    stale / equal / racing conditional publishes by every kind of publisher"""
+    w1 = {'p1': [{'a': 'Send', 'kind': 'equal', 'pol': 'leader'}, {'a': 'Send', 'kind': 'stale', 'pol': 'leader'}],
+          'p2': [{'a': 'Send', 'kind': 'equal', 'pol': 'all'}]}
+    w2 = {'p1': [{'a': 'Read'}, {'a': 'Send', 'kind': 'stale', 'pol': 'leader'}, {'a': 'Send', 'kind': 'equal', 'pol': 'leader'}],
+          'p2': [{'a': 'Read'}, {'a': 'Send', 'kind': 'equal', 'pol': 'leader'}, {'a': 'Send', 'kind': 'far', 'pol': 'all'}]}
+    w3 = {'p1': [{'a': 'Read'}, {'a': 'Send', 'kind': 'stale', 'pol': 'leader', 'via': 'nats'},
+                 {'a': 'Send', 'kind': 'equal', 'pol': 'leader', 'via': 'natsq'}],
+          'p2': [{'a': 'Read'}, {'a': 'Send', 'kind': 'equal', 'pol': 'leader'}]}
+    ctl = []
+    if snap0 == 'late':
+        ctl.append({'a': 'Snapshot'})
+    ctl.append({'a': 'Restart' if how == 'restart' else 'Install'})
+    w2['#'] = ctl
+    r = {'id': rid, 'cfg': {'occ': occ, 'batch': 8, 'batchMs': 0, 'path': path, 'pubs': ['p1', 'p2']}, 'steps': [w1, w2, w3]}
+    if snap0 != 'late':
+        set_snap0(r, snap0)
+    return r
+
+
+def hold_case(rid, kind, pol, racer):
+    """a PublishAsync session that is idle (nothing counted as in flight) publishes once; the session is parked
+    between its NATS publish and its in-flight count until the answer has come (gate api.publish_async.published);
+    racer: a second publisher races with the same expectation"""
+    w1 = {'p1': [{'a': 'Send', 'kind': 'waive', 'pol': 'leader'}], 'p2': [{'a': 'Send', 'kind': 'waive', 'pol': 'leader'}]}
+    w2 = {'p1': [{'a': 'Read'}, {'a': 'Send', 'kind': kind, 'pol': pol, 'hold': True}]}
+    if racer:
+        w2['p2'] = [{'a': 'Read'}, {'a': 'Send', 'kind': kind, 'pol': 'leader', 'hold': True}]
+    w3 = {'p1': [{'a': 'Send', 'kind': 'equal', 'pol': 'leader'}, {'a': 'Send', 'kind': 'future', 'pol': pol, 'hold': True}]}
+    return {'id': rid, 'cfg': {'occ': True, 'batch': 8, 'batchMs': 0, 'path': 'async', 'pubs': ['p1', 'p2']},
+            'steps': [w1, w2, w3]}
+
+
+def who_case(rid, via, path, first):
+    """who publishes: p1 over `via` (PublishToSubject, own NATS connection with / without ack inbox, plain NATS
+    message), p2 over the gRPC API; first = what p1 sends into the empty log; then p2 stores one, p1 waives, p1 is
+    stale, p1 has the right expectation, p2 again"""
+    def s(kind, **kw):
+        return dict({'a': 'Send', 'kind': kind, 'pol': 'leader'}, **kw)
+    waves = [{'p1': [s(first, via=via)]},
+             {'p2': [{'a': 'Read'}, s('equal')]},
+             {'p1': [s('waive', via=via)]},
+             {'p1': [s('stale', via=via)], 'p2': [{'a': 'Read'}, s('far')]},
+             {'p1': [{'a': 'Read'}, s('equal', via=via)]},
+             {'p2': [{'a': 'Read'}, s('equal')], 'p1': [{'a': 'Read'}, s('equal', via=via)]}]
+    for w in waves:
+        for steps in w.values():
+            for st_ in steps:
+                if st_.get('via') in ('plain', 'subj'):
+                    st_['kind'] = 'waive'
+    return {'id': rid, 'cfg': {'occ': True, 'batch': 8, 'batchMs': 0, 'path': path, 'pubs': ['p1', 'p2']}, 'steps': waves}
 
 
 _panic_re = re.compile(r'^panic: (.*)$', re.M)
@@ -297,7 +419,17 @@ def sv_execute(rounds, d, timeout=1200):
 
 def sv_features(rnd):
     c = rnd['cfg']
-    return 'server,path=%s,batch%s' % (c['path'], '=1' if c['batch'] == 1 else '>1')
+    sends = [s for w in rnd['steps'] for who, steps in w.items() if who != '#' for s in steps if s['a'] == 'Send']
+    ctl = {x['a'] for w in rnd['steps'] for x in w.get('#', [])}
+    f = 'server,path=%s,batch%s' % (c['path'], '=1' if c['batch'] == 1 else '>1')
+    vias = sorted({s.get('via', 'api') for s in sends} - {'api'})
+    if vias:
+        f += ',via=' + '+'.join(vias)
+    if any(s.get('hold') for s in sends):
+        f += ',hold'
+    if ctl & {'Restart', 'Install', 'Snapshot'} or c.get('snap0'):
+        f += ',comeback=' + '+'.join(sorted(ctl & {'Restart', 'Install', 'Snapshot'})) + '/' + c.get('snap0', 'none')
+    return f
 
 
 def sv_judge(rep, rounds, trace, confirm=True):
@@ -328,7 +460,8 @@ def sv_stats(events):
     st = {'rounds': 0, 'msgs': 0, 'ok': 0, 'refused': 0, 'timeouts': 0, 'nontrivial_ids': [], 'exact_refusals': 0,
           'races_same_exp': 0, 'aborted': 0, 'other_answers': 0, 'pauses': 0, 'rounds_with_pause': 0,
           'none_on_occ': 0, 'none_refused': 0, 'sync_rounds': 0, 'noanswer': 0, 'fences': 0, 'restarts': 0, 'recreated_streams': 0,
-          'conditional_all': 0}
+          'conditional_all': 0, 'via': {}, 'holds_counted_after_answer': 0, 'holds_expired': 0, 'snapshots': 0,
+          'installs': 0, 'comebacks': {}, 'silent_conditional_stored': 0, 'silent_conditional_unstored': 0}
     for e in events:
         if e['a'] == 'Aborted':
             st['aborted'] += 1
@@ -337,6 +470,21 @@ def sv_stats(events):
         st['rounds'] += 1
         st['pauses'] += e.get('pauses', 0)
         st['restarts'] += e.get('restarts', 0)
+        st['snapshots'] += e.get('snaps', 0)
+        st['installs'] += e.get('installs', 0)
+        if e.get('restarts', 0) or e.get('installs', 0):
+            k = '%s%s from snapshot=%s' % ('restart' if e.get('restarts', 0) else '', '+install' if e.get('installs', 0) else '',
+                                           e.get('snap', 'none'))
+            st['comebacks'][k] = st['comebacks'].get(k, 0) + 1
+        stored = {x['id'] for x in e['log']}
+        for i, m in enumerate(e['msgs']):
+            st['via'][m.get('via', 'api')] = st['via'].get(m.get('via', 'api'), 0) + 1
+            if m.get('hold') == 'counted after the answer':
+                st['holds_counted_after_answer'] += 1
+            elif m.get('hold'):
+                st['holds_expired'] += 1
+            if m.get('via') == 'natsq' and m['exp'] != -1 and e['cfg']['occ']:
+                st['silent_conditional_stored' if i + 1 in stored else 'silent_conditional_unstored'] += 1
         st['recreated_streams'] += 1 if e.get('recreate') else 0
         st['rounds_with_pause'] += 1 if e.get('pauses', 0) else 0
         st['sync_rounds'] += 1 if e['cfg']['path'] == 'sync' else 0
@@ -379,14 +527,17 @@ def run_server(rep, tier, seed, rng):
     # design check of the publish path
     # (the thorough configurations contain the quick ones)
     # (_small carries the partition-state / API-path / negative-expectation dimensions: run in both tiers)
-    for cfgname in (['MC_OccPublish_thorough.cfg', 'MC_OccPublish_thorough2.cfg', 'MC_OccPublish_small.cfg'] if thorough
-                    else ['MC_OccPublish.cfg', 'MC_OccPublish_small.cfg']):
+    # (_who: who publishes; _hold: PublishAsync session that counts after the answer; _life: how the server comes back)
+    for cfgname in (['MC_OccPublish_thorough.cfg', 'MC_OccPublish_thorough2.cfg', 'MC_OccPublish_small.cfg',
+                     'MC_OccPublish_who_thorough.cfg', 'MC_OccPublish_hold_thorough.cfg', 'MC_OccPublish_life_thorough.cfg']
+                    if thorough else ['MC_OccPublish.cfg', 'MC_OccPublish_small.cfg', 'MC_OccPublish_who.cfg',
+                                      'MC_OccPublish_hold.cfg', 'MC_OccPublish_life.cfg']):
         res = tlc_check('MC_OccPublish.tla', cfgname, timeout=3000,
                         coverage=thorough and cfgname != 'MC_OccPublish_small.cfg')
         rep.add_design(cfgname[:-4], res)
         core.log('design check %s: %d distinct states, %.0f s' % (cfgname, res['distinct'], res['wall']))
-        # the two large configs have MaxPauses = 0 (PauseStream is exercised by MC_OccPublish_small.cfg)
-        skip = {'MCPause', 'MCRestart'} if cfgname in ('MC_OccPublish_thorough.cfg', 'MC_OccPublish_thorough2.cfg') else {'MCRestart'}
+        # actions the configuration switches off (budget 0) are exercised by another configuration
+        skip = OFF.get(cfgname[:-4], set())
         zero = [z for z in res.get('zero_cov', []) if z not in skip]
         rep.cov['coverage_zero_actions'] = [z for z in rep.cov['coverage_zero_actions']
                                             if not (z.split(':')[0] == cfgname[:-4] and z.split(':')[1] in skip)]
@@ -417,6 +568,21 @@ def run_server(rep, tier, seed, rng):
         for paused in (False, True):
             for kind in ('equal', 'far', 'stale'):
                 rounds.append(none_case(len(rounds) + 1, path, kind, paused))
+    # how the server comes back: (where the newest snapshot was taken) x (restart / install)
+    combos = [(s0, how) for s0 in ('none', 'pred', 'gap', 'cur', 'late') for how in ('restart', 'install')]
+    for i, (s0, how) in enumerate(combos):
+        for path in (('async', 'sync') if thorough else (('async', 'sync')[i % 2],)):
+            rounds.append(comeback_case(len(rounds) + 1, path, s0, how))
+    rounds.append(comeback_case(len(rounds) + 1, 'async', 'cur', 'restart', occ=False))
+    # an idle PublishAsync session whose publish is answered before it is counted
+    for kind in ('stale', 'future', 'equal', 'waive', 'neg'):
+        for pol in (('leader', 'all') if thorough or kind in ('stale', 'equal') else ('leader',)):
+            rounds.append(hold_case(len(rounds) + 1, kind, pol, racer=kind == 'equal'))
+    # who publishes
+    for via in ('nats', 'natsq', 'plain', 'subj'):
+        for first in (('far', 'equal') if via in ('nats', 'natsq') else ('waive',)):
+            for path in (('async', 'sync') if thorough else ('async',)):
+                rounds.append(who_case(len(rounds) + 1, via, path, first))
     # stream life cycle x server restart
     for path, recreate, at in (('async', True, 0), ('sync', True, 1), ('async', False, 1)) + (
             (('sync', False, 0), ('async', True, 2), ('sync', True, 2)) if thorough else ()):
